@@ -167,6 +167,57 @@ def gen_random(rng, nconn):
     return hist
 
 
+def runtime_failure_oracle(ck):
+    """A statement that fails WHILE RUNNING inside a transaction (NOT NULL violation, conversion error) - outside the model, oracle only:
+    nothing of the transaction may be visible to another connection before it ends, ROLLBACK leaves no trace, and after COMMIT the rows
+    of the transaction are there together or not at all."""
+    from fakesnow.instance import FakeSnow
+
+    bad = []
+    for failing in ("insert into nn values (null, 9)", "insert into nn select 'not a number', 9"):
+        for end in ("rollback", "commit"):
+            for via_api in (False, True):
+                fs = FakeSnow()
+                a, b = fs.connect(database="db1", schema="s1"), fs.connect(database="db1", schema="s1")
+                a.cursor().execute("create table nn (id int not null, v int)")
+                a.cursor().execute("insert into nn values (0, 0)")
+                log, ok = [], {}
+
+                def ex(c, sql, who):
+                    try:
+                        r = c.cursor().execute(sql).fetchall()
+                        log.append(f"{who}: {sql} -> {r}")
+                        return r
+                    except Exception as e:  # noqa: BLE001
+                        log.append(f"{who}: {sql} -> {type(e).__name__}")
+                        return None
+
+                ex(a, "begin", "A")
+                ok[1] = ex(a, "insert into nn values (1, 1)", "A") is not None
+                ex(a, failing, "A")
+                ok[2] = ex(a, "insert into nn values (2, 2)", "A") is not None
+                seen_mid = ex(b, "select id from nn order by 1", "B")
+                if via_api:
+                    try:
+                        (a.rollback if end == "rollback" else a.commit)()
+                        log.append(f"A: conn.{end}() -> ok")
+                    except Exception as e:  # noqa: BLE001
+                        log.append(f"A: conn.{end}() -> {type(e).__name__}")
+                else:
+                    ex(a, end, "A")
+                seen_a = ex(a, "select id from nn order by 1", "A")
+                seen_b = ex(b, "select id from nn order by 1", "B")
+                fs.duck_conn.close()
+                ck.cov["evaluations"] += 1
+                tx_rows = [(i,) for i in (1, 2) if ok[i]]
+                allowed_end = [[(0,)]] if end == "rollback" else [[(0,)], [(0,)] + tx_rows]
+                if seen_mid != [(0,)]:
+                    bad.append((log, f"connection B saw {seen_mid} while A's transaction was still open"))
+                elif seen_a != seen_b or seen_b not in allowed_end:
+                    bad.append((log, f"after {end}: A sees {seen_a}, B sees {seen_b}; allowed: {allowed_end}"))
+    return bad
+
+
 def main():
     ck = Check("C13", "Tx", "run_c13")
     ck.prepare()
@@ -229,6 +280,10 @@ def main():
     ck.cov["distinct_nontrivial"] = len({core.show(c) for c, (n, h) in zip(cases, hists)
                                          if any(op[0] == "begin" for _, _, op, _ in h) and len({c0 for c0, *_ in h}) >= 2})
     ck.cov["samples"] += [{"history": [(c, k, render(op, v) or op[0] + "()") for c, k, op, v in hists[j][1]], "observed": impl[j][0]} for j in (3, len(hists) - 1)]
+    rt = runtime_failure_oracle(ck)
+    if rt:
+        log, what = rt[0]
+        ck.violation(f"a statement failing at run time inside a transaction: {what}; statements: {log}", {"statements": log, "finding": what, "cases_failing": len(rt)})
     return ck.finish(rule="all interleavings of small transactional scripts + random histories over 2-3 connections x 2 cursors (SQL and conn.commit()/rollback() forms, "
                           "failing statements inside transactions); non-trivial = contains a BEGIN and statements of >=2 connections; distinct by encoded history")
 
